@@ -285,6 +285,12 @@ def replay_toykey(ctx, cname, r):
                     ctx.case(("toypair", cname, x, y))
                 elif y in lift:
                     ctx.extra["lifted_pairs_accepted_by_Key"] = ctx.extra.get("lifted_pairs_accepted_by_Key", 0) + (got[0] == "ok")
+                    if got[0] == "ok":
+                        _judge_lifted(ctx, "toy", keycls, got[1], dict((t[0], t[1]) for t in rec["liftread"])[y], CURVES[cname][0],
+                                      "toypair", "%s: pair (%d,%d)" % (cname, x, y))
+                    elif got[0] != "InvalidPublicPairError":
+                        ctx.fail("C10|Key(public_pair)|toy|lifted|expected=InvalidPublicPairError-or-accept|got=%s" % got[0],
+                                 "%s: pair (%d,%d) gives %s" % (cname, x, y, got[0]), rec)
                 elif got[0] != "InvalidPublicPairError":
                     ctx.fail("C10|Key(public_pair)|toy|offcurve|expected=InvalidPublicPairError|got=%s" % got[0],
                              "%s: off-curve pair (%d,%d) gives %s" % (cname, x, y, got[0]), rec)
@@ -327,6 +333,23 @@ def _judge_pub(ctx, scale, site, f, want, label, what):
     return k
 
 
+def _judge_lifted(ctx, scale, keycls, key, read, p, label, what):
+    """KeyEnc!LiftOutcomeOk: a pair that is no pair of field elements was ACCEPTED; then every SEC form of the key that
+    came back decodes to the point the pair is congruent to (`read`, from the spec)."""
+    for comp in (True, False):
+        try:
+            blob = key.sec(is_compressed=comp)
+        except Exception as e:  # noqa: BLE001
+            ctx.fail("C10|Key(public_pair)|%s|lifted|accepted|sec=%s" % (scale, K._exc(e)),
+                     "%s: accepted, but key.sec(is_compressed=%s) raises %r" % (what, comp, e), None)
+            continue
+        kk = K.key_from_sec(keycls, blob)
+        if kk[0] != "ok" or (kk[1][0] % p, kk[1][1] % p) != tuple(read):
+            ctx.fail("C10|Key(public_pair)|%s|lifted|accepted|sec-roundtrip=%s" % (scale, "other-point" if kk[0] == "ok" else kk[0]),
+                     "%s: accepted, but its %s SEC form %s decodes to %s, not to the congruent point %r"
+                     % (what, "compressed" if comp else "uncompressed", bytes(blob).hex(), kk[1] if kk[0] == "ok" else kk[0], tuple(read)), None)
+
+
 def replay_pubrep(ctx, cname, r):
     hdr = _hdr(r, "rephdr")
     if (hdr["p"], hdr["a"], hdr["b"], hdr["gx"], hdr["gy"], hdr["n"]) != CURVES[cname]:
@@ -341,6 +364,9 @@ def replay_pubrep(ctx, cname, r):
         if k == "repcol":
             kind, x = rec["kind"], rec["x"]
             acc, lift = set(rec["acc"]), set(rec["lift"])
+            liftread = {t[0]: t[1] for t in rec["liftread"]}
+            if set(liftread) != lift:
+                raise MachineryError("spec: liftread does not cover lift")
             for y in rec["cand"]:
                 try:
                     obj = _rep(kind, x, y, gen, fgen)
@@ -356,6 +382,9 @@ def replay_pubrep(ctx, cname, r):
                     cnt += 1
                     if key is not None and want and tuple(key.public_pair()) != (x, y):
                         ctx.fail("C10|Key(public_pair)|toy|kind=%s|got=wrong-point" % kind, "%s: %r -> %r" % (cname, (x, y), key.public_pair()), None)
+                    if key is not None and y in lift:
+                        _judge_lifted(ctx, "toy", keycls, key, tuple(liftread[y]), p, "kind=%s" % kind, "%s: %s %r" % (cname, kind, (x, y)))
+                        cnt += 2
                 if want:
                     ctx.case(("pubrep", cname, kind, x, y), 0)
         elif k in ("repinf", "repkg", "repqmq"):
@@ -419,6 +448,8 @@ def replay_pubrep_256(ctx, table):
             objs = [(q, q) for q in r1pts + toypts]
         elif cls == "off-both":
             objs = [(q, q) for q in offboth]
+        elif cls == "lifted":
+            objs = [((qx + dx * K.P, qy + dy * K.P), (qx, qy)) for (qx, qy) in own[:4] + [(K.GX, K.GY)] for dx, dy in ((0, 1), (1, 0), (1, 1), (0, 2))]
         elif cls == "infinity":
             objs = [((None, None), None)]
         elif cls == "half-none":
@@ -439,6 +470,17 @@ def replay_pubrep_256(ctx, table):
             for o in cands:
                 label = "kind=%s|class=%s" % (kind, cls)
                 what = "%s %r (%s)" % (label, tuple(o), type(o).__name__)
+                if row.get("either"):
+                    for site, f in (("Key(public_pair)", lambda: keycls(public_pair=o)), ("network.keys.public", lambda: net.keys.public(o))):
+                        if kind == "list" and site != "Key(public_pair)":
+                            continue
+                        key = _judge_pub(ctx, "secp256k1", site, f, None, label, what)
+                        cnt += 1
+                        if key is not None:
+                            _judge_lifted(ctx, "secp256k1", keycls, key, q, K.P, label, what)
+                            cnt += 2
+                    seen.add((kind, cls))
+                    continue
                 for comp in (True, False):
                     key = _judge_pub(ctx, "secp256k1", "Key(public_pair)", lambda: keycls(public_pair=o, is_compressed=comp), ok, label, what)
                     cnt += 1
@@ -1255,7 +1297,7 @@ def run(ctx):
         "k*G, square and cube roots on secp256k1 come from a 25-line affine reference (checked against published 2G, 3G, (n-1)G)",
         "on-curve validation of UNCOMPRESSED blobs is anchored at Key construction (property anchors): sec_to_public_pair may hand "
         "out an off-curve pair of a well-formed 04/06/07 blob provided Key() and verify() refuse it (checked for each such pair)",
-        "integers that are not field elements but congruent to a point, given directly to Key(public_pair=...): the property is silent",
+        "integers that are not field elements but congruent to a point, given directly to Key(public_pair=...): refused, or read as that point (KeyEnc!LiftOutcomeOk: every SEC form of the key that comes back decodes to it)",
         "DER: only demanded are round trip of strict encodings, refusal of trailing bytes in strict mode, and exceptions "
         "limited to UnexpectedDER/ValueError; other leniencies are counted in der_not_demanded_but_observed",
         "GRS/GRSRT/TGRS networks cannot be imported in this sandbox (groestlcoin_hash missing)",
